@@ -42,11 +42,12 @@ type c18Config struct {
 	Mux         string
 	StunMode    string
 	ViaConfig   bool // agent built from an AgentConfig struct instead of options
+	SrflxMapped int  // > 0: an address rewrite rule publishes this many external IPs as srflx candidates (no STUN)
 }
 
 func (c c18Config) String() string {
-	return fmt.Sprintf("ifaces=%+v types=%v nets=%v(set=%v) ports=%d-%d ifaceReject=%v ipReject=%v loopback=%v mdns=%v mux=%q stun=%s viaConfig=%v",
-		c.Ifaces, c.Types, c.NetTypes, c.NetTypesSet, c.PortMin, c.PortMax, c.IfaceReject, c.IPReject, c.Loopback, c.MDNS, c.Mux, c.StunMode, c.ViaConfig)
+	return fmt.Sprintf("ifaces=%+v types=%v nets=%v(set=%v) ports=%d-%d ifaceReject=%v ipReject=%v loopback=%v mdns=%v mux=%q stun=%s viaConfig=%v srflxMapped=%d",
+		c.Ifaces, c.Types, c.NetTypes, c.NetTypesSet, c.PortMin, c.PortMax, c.IfaceReject, c.IPReject, c.Loopback, c.MDNS, c.Mux, c.StunMode, c.ViaConfig, c.SrflxMapped)
 }
 
 func c18ConfigGen() *rapid.Generator[c18Config] {
@@ -113,6 +114,12 @@ func c18ConfigGen() *rapid.Generator[c18Config] {
 		c.Mux = rapid.SampledFrom([]string{"", "", "", "udp", "tcp"}).Draw(t, "mux")
 		c.StunMode = rapid.SampledFrom([]string{"now", "now", "never"}).Draw(t, "stun")
 		c.ViaConfig = rapid.IntRange(0, 2).Draw(t, "viaAgentConfig") == 0
+		if hasType(c.Types, CandidateTypeServerReflexive) && c.Mux != "udp" {
+			c.SrflxMapped = rapid.SampledFrom([]int{0, 0, 1, 2, 3, 4}).Draw(t, "srflxMapped")
+			if c.SrflxMapped > 0 {
+				c.ViaConfig = false // rewrite rules exist as an option only
+			}
+		}
 
 		return c
 	})
@@ -217,6 +224,13 @@ func newC18World(cfg c18Config) (*c18World, error) {
 	}
 	if hasType(cfg.Types, CandidateTypeServerReflexive) {
 		opts = append(opts, WithUrls([]*stun.URI{{Scheme: stun.SchemeTypeSTUN, Host: "198.51.100.1", Port: 3478, Proto: stun.ProtoTypeUDP}}))
+	}
+	if cfg.SrflxMapped > 0 {
+		var ext []string
+		for i := 0; i < cfg.SrflxMapped; i++ {
+			ext = append(ext, fmt.Sprintf("203.0.113.%d", 60+i))
+		}
+		opts = append(opts, WithAddressRewriteRules(AddressRewriteRule{External: ext, AsCandidateType: CandidateTypeServerReflexive, Mode: AddressRewriteReplace}))
 	}
 	muxIP := "10.0.0.5"
 	switch cfg.Mux {
@@ -514,6 +528,9 @@ func TestVerif_C18_Gather(t *testing.T) {
 				continue
 			}
 			ip = ip.Unmap()
+			if ip.Is4() && ip.IsUnspecified() {
+				lbl["published-0.0.0.0"] = true // (IPv4 twin of D21; outside the letter of the property, counted only)
+			}
 			if ip.Is6() {
 				b := ip.As16()
 				v4compat := true
@@ -523,7 +540,13 @@ func TestVerif_C18_Gather(t *testing.T) {
 					}
 				}
 				if ip.IsLinkLocalUnicast() || (b[0] == 0xfe && b[1]&0xc0 == 0xc0) || v4compat {
-					fail("C18/sound/special-purpose-address", "published %s: link-local / site-local / IPv4-compatible IPv6", c)
+					sig := "C18/sound/special-purpose-address"
+					if ip.IsUnspecified() && c.Type() == CandidateTypeServerReflexive && cfg.SrflxMapped > 0 {
+						// D21 (known finding): srflx rewrite rules without a mapping for this family fall back to
+						// the wildcard listen address
+						sig = "C18/sound/special-purpose-address/wildcard-address-from-srflx-rule-fallback"
+					}
+					fail(sig, "published %s: link-local / site-local / IPv4-compatible IPv6", c)
 				}
 			}
 			borrowed := (cfg.Mux == "udp" && !c.NetworkType().IsTCP()) || c.NetworkType().IsTCP()
@@ -613,6 +636,22 @@ func TestVerif_C18_Gather(t *testing.T) {
 				}
 			}
 		}
+		// completeness of rule-mapped srflx candidates: one per external IP (own socket each), unless ports ran out
+		if cfg.SrflxMapped > 0 && c18NetEnabled(cfg, NetworkTypeUDP4) && portBusy == 0 && !(cfg.PortMin != 0 && cfg.PortMax != 0) && cyclesCompleted > 0 {
+			lbl["srflx-mapped"] = true
+			for i := 0; i < cfg.SrflxMapped; i++ {
+				want := fmt.Sprintf("203.0.113.%d", 60+i)
+				found := false
+				for _, c := range local {
+					if c.Type() == CandidateTypeServerReflexive && c.Address() == want {
+						found = true
+					}
+				}
+				if !found {
+					fail("C18/complete/mapped-srflx-candidate-missing", "rewrite rule maps to %s but no srflx candidate carries it; local candidates: %v", want, local)
+				}
+			}
+		}
 		if cfg.Mux == "tcp" && hasType(cfg.Types, CandidateTypeHost) && !cfg.MDNS {
 			if _, ok := eligible["10.0.0.5"]; ok && c18NetEnabled(cfg, NetworkTypeTCP4) {
 				found := false
@@ -647,6 +686,156 @@ func TestVerif_C18_Gather(t *testing.T) {
 			st.Sample(func() string {
 				return fmt.Sprintf("%s script=%s → eligible=%v expectedHost=%d published=%d events=%v", cfg, script, eligible, nExpected, len(local), events)
 			})
+		}
+	})
+}
+
+// TestVerif_C18_ContinualRestart: the GatherContinually policy (a monitor goroutine re-gathers when a new
+// interface address appears) across Restart.  While a cycle is live a new address yields a host candidate;
+// Restart cancels the cycle *and its monitor*: afterwards nothing is published, the state is New and the agent
+// holds no candidate or socket, whatever happens to the interface list; a fresh cycle then publishes the
+// current addresses under the new ufrag only.
+func TestVerif_C18_ContinualRestart(t *testing.T) {
+	st := vfNewStats(t)
+	lf := logging.NewDefaultLoggerFactory()
+	lf.DefaultLogLevel = logging.LogLevelDisabled
+	rapid.Check(t, func(rt *rapid.T) {
+		nInitial := rapid.IntRange(1, 3).Draw(rt, "initialAddresses")
+		addDuring := rapid.Bool().Draw(rt, "addressAppearsDuringCycle")
+		addAfterRestart := rapid.IntRange(0, 2).Draw(rt, "addressesAppearingAfterRestart")
+		secondCycle := rapid.Bool().Draw(rt, "secondCycle")
+		var ifaces []fnIface
+		for i := 0; i < nInitial; i++ {
+			ifaces = append(ifaces, fnIface{Name: fmt.Sprintf("eth%d", i), Up: true, Addrs: []string{fmt.Sprintf("10.0.%d.1", i)}})
+		}
+		fn := newFakeNet(ifaces)
+		a, err := NewAgentWithOptions(WithNet(fn), WithLoggerFactory(lf), WithMulticastDNSMode(MulticastDNSModeDisabled),
+			WithCandidateTypes([]CandidateType{CandidateTypeHost}), WithNetworkTypes([]NetworkType{NetworkTypeUDP4}),
+			WithContinualGatheringPolicy(GatherContinually), WithNetworkMonitorInterval(400*time.Microsecond))
+		if err != nil {
+			rt.Fatalf("harness: %v", err)
+		}
+		defer func() {
+			done := make(chan struct{})
+			go func() { _ = a.Close(); close(done) }()
+			select {
+			case <-done:
+			case <-time.After(20 * time.Second):
+			}
+		}()
+		var (
+			mu     sync.Mutex
+			events []string // "<ufrag> <address>" or "nil"
+		)
+		_ = a.OnCandidate(func(c Candidate) {
+			mu.Lock()
+			defer mu.Unlock()
+			if c == nil {
+				events = append(events, "nil")
+
+				return
+			}
+			uf, _ := c.GetExtension("ufrag")
+			events = append(events, uf.Value+" "+c.Address())
+		})
+		snapshot := func() []string {
+			mu.Lock()
+			defer mu.Unlock()
+
+			return append([]string{}, events...)
+		}
+		waitFor := func(ufrag string, addrs []string) bool {
+			for d := time.Now().Add(20 * time.Second); time.Now().Before(d); {
+				have := map[string]bool{}
+				for _, e := range snapshot() {
+					have[e] = true
+				}
+				all := true
+				for _, ad := range addrs {
+					if !have[ufrag+" "+ad] {
+						all = false
+					}
+				}
+				if all {
+					return true
+				}
+				time.Sleep(100 * time.Microsecond)
+			}
+
+			return false
+		}
+		u1, _, _ := a.GetLocalUserCredentials()
+		if err := a.GatherCandidates(); err != nil {
+			rt.Fatalf("harness: gather: %v", err)
+		}
+		addrs := []string{}
+		for _, ifc := range ifaces {
+			addrs = append(addrs, ifc.Addrs...)
+		}
+		desc := fmt.Sprintf("initial=%v addDuring=%v addAfterRestart=%d secondCycle=%v", addrs, addDuring, addAfterRestart, secondCycle)
+		if !waitFor(u1, addrs) {
+			st.Fail(rt, "C18/continual/host-candidate-missing", "not every eligible address got a host candidate within 20 s: events %v (%s)", snapshot(), desc)
+		}
+		if addDuring {
+			fn.addIface(fnIface{Name: "wlan0", Up: true, Addrs: []string{"10.0.9.1"}})
+			addrs = append(addrs, "10.0.9.1")
+			if !waitFor(u1, []string{"10.0.9.1"}) {
+				st.Fail(rt, "C18/continual/new-address-not-gathered", "an address that appeared while the cycle was live got no host candidate within 20 s: events %v (%s)", snapshot(), desc)
+			}
+		}
+		if err := a.Restart("", ""); err != nil {
+			rt.Fatalf("harness: restart: %v", err)
+		}
+		atRestart := len(snapshot())
+		for k := 0; k < addAfterRestart; k++ {
+			fn.addIface(fnIface{Name: fmt.Sprintf("usb%d", k), Up: true, Addrs: []string{fmt.Sprintf("10.0.2%d.1", k)}})
+			addrs = append(addrs, fmt.Sprintf("10.0.2%d.1", k))
+			time.Sleep(3 * time.Millisecond)
+		}
+		time.Sleep(8 * time.Millisecond) // ≥ 20 monitor intervals
+		if g, _ := a.GetGatheringState(); g != GatheringStateNew {
+			st.Fail(rt, "C18/cycle/state-after-restart", "gathering state %s after Restart (continual policy) (%s)", g, desc)
+		}
+		if ev := snapshot(); len(ev) != atRestart {
+			st.Fail(rt, "C18/continual/published-after-restart", "candidates published after Restart without a new GatherCandidates: %v (%s)", ev[atRestart:], desc)
+		}
+		if lc, _ := a.GetLocalCandidates(); len(lc) != 0 {
+			st.Fail(rt, "C18/continual/candidates-after-restart", "%d local candidate(s) held after Restart: %v (%s)", len(lc), lc, desc)
+		}
+		for d := time.Now().Add(5 * time.Second); ; {
+			open, _, _ := fn.tally()
+			if len(open) == 0 {
+				break
+			}
+			if time.Now().After(d) {
+				st.Fail(rt, "C18/continual/sockets-after-restart", "sockets still open 5 s after Restart: %v (%s)", open, desc)
+
+				break
+			}
+			time.Sleep(200 * time.Microsecond)
+		}
+		if secondCycle {
+			u2, _, _ := a.GetLocalUserCredentials()
+			if err := a.GatherCandidates(); err != nil {
+				st.Fail(rt, "C18/cycle/gather-refused-after-restart", "GatherCandidates after Restart: %v (%s)", err, desc)
+			}
+			if !waitFor(u2, addrs) {
+				st.Fail(rt, "C18/continual/host-candidate-missing", "second cycle: not every current address got a host candidate: events %v (%s)", snapshot()[atRestart:], desc)
+			}
+			for _, e := range snapshot()[atRestart:] {
+				if !strings.HasPrefix(e, u2+" ") {
+					st.Fail(rt, "C18/cycle/results-mixed", "event %q after the second GatherCandidates does not carry the new ufrag %s (%s)", e, u2, desc)
+				}
+			}
+		}
+		for _, e := range snapshot() {
+			if e == "nil" {
+				st.Fail(rt, "C18/continual/nil-candidate", "a nil candidate was published under the continual policy: %v (%s)", snapshot(), desc)
+			}
+		}
+		st.Record(vfHashStr(desc), addAfterRestart > 0 || addDuring, fmt.Sprintf("address-after-restart:%v", addAfterRestart > 0), fmt.Sprintf("address-during-cycle:%v", addDuring))
+		if (addAfterRestart > 0 || addDuring) && st.WantSample() {
+			st.Sample(func() string { return desc + fmt.Sprintf(" events=%d", len(snapshot())) })
 		}
 	})
 }
